@@ -15,57 +15,54 @@
 
    History.  On the originally pinned tree I1, I3, I4 and I5 were all violated (reservations
    were released by a successful bundle only; add_block_transactions_back re-inserted around
-   the index and the cache; a failed Block::create left index and cache behind).  The fixes
-   0fedb86, 2cf0b5a, cafb4ab, ff837ac repaired that; the model follows the repaired code and
-   I1, I2, I3, I5 are now proved for EVERY operation sequence (the histories that used to
-   break them are the Example C14_regression_examples).
+   the index and the cache; a failed Block::create left index and cache behind and lost the
+   drained pool).  The fixes 0fedb86, 2cf0b5a, cafb4ab, ff837ac, 1214e31 repaired that; the
+   model follows /repo HEAD (also f62222f, e0300b2, 9879695 of the producer side).
 
-   What is still violated: I4.  Block::create drains the pool before its double-spend
-   detection can fail, so a bundle can return no block and lose every pooled transaction:
+   Now: I1, I2, I5 and the auxiliary invariants hold after EVERY operation sequence.
+   I4 holds for every bundle whose Block::create does not fail, with one exception that is
+   part of the statement: a pooled transaction that spends an output which the produced
+   block itself rebroadcasts is left out of the block and of the pool (1214e31; such a
+   transaction can never validate again once the block is on the chain:
+   C14_I4_left_out_is_doomed).  A failing Block::create (not reachable with well-formed
+   transactions: C14_I4_create_succeeds) now hands the pool back.
 
-     I4  forall s env wn st ex p' r, bundle_block (ledger s) (pl s) env wn st ex = Ok (p', r) ->
-           match r with None => p' = pl s | Some b => txs p' = [] /\ ... end       (FALSE)
+   What is still violated, by a side effect of that leaving-out: I3.  A successful bundle
+   releases the reservations of the inputs of the block's transactions only, so the OTHER
+   inputs of a left-out transaction stay reserved although no pooled transaction names them,
+   until the next block addition rebuilds the index:
 
-   Known_C14_failed_create is that step class; it is entered only when what Block::create adds
-   itself (a rebroadcast at the window edge) spends an output that a pooled transaction
-   spends (C14_I4_create_succeeds), and it leaves an empty, consistent pool
-   (C14_I4_failed_create_leaves_empty_pool). *)
+     I3  forall g ops s, run (init g) ops = Ok s -> I3 (pl s)                      (FALSE)
+
+   Known_C14_left_out_stale is that step class (C14_I3_no_stale_reservation_refuted,
+   C14_I3_funds_locked_refuted); I3 is proved for every run outside it, and after every block
+   addition regardless of what happened before. *)
 From Saito Require Import Base Mempool MempoolProofs.
 
-Definition Known_C14_failed_create := ev_failed_create.
+Definition Known_C14_left_out_stale := ev_left_out_stale.
+Definition C14_failed_create := ev_failed_create.
 
-(* ---------------- I1, I3, I5: after every operation sequence ---------------- *)
+(* ---------------- I1, I5: after every operation sequence ---------------- *)
 
 (* signatures are unique keys; every input of a pooled transaction is reserved;
    I1 no two pooled transactions spend the same value-carrying output;
-   I3 every reservation belongs to a pooled transaction;
    I5 the cached routing work is the (u64) sum over the pooled transactions *)
-Theorem C14_all_invariants : forall g ops s,
+Theorem C14_base_invariants : forall g ops s,
   run (init g) ops = Ok s ->
-  UniqueIds (pl s) /\ Reserved (pl s) /\ I1 (pl s) /\ I3 (pl s) /\ I5 (pl s).
-Proof. exact all_invariants. Qed.
+  UniqueIds (pl s) /\ Reserved (pl s) /\ I1 (pl s) /\ I5 (pl s).
+Proof. exact base_invariants. Qed.
 
 Theorem C14_I1_no_double_spend_in_pool : forall g ops s,
   run (init g) ops = Ok s -> I1 (pl s).
 Proof. exact no_double_spend_in_pool. Qed.
 
-Theorem C14_I3_no_stale_reservation : forall g ops s,
-  run (init g) ops = Ok s -> I3 (pl s).
-Proof. exact no_stale_reservation. Qed.
-
 Theorem C14_I5_routing_work_cache : forall g ops s,
   run (init g) ops = Ok s -> I5 (pl s).
 Proof. exact routing_work_cache. Qed.
 
-(* I3, user-visible: after every operation sequence an output that no pooled transaction
-   names as an input is accepted when a fresh valid transaction spends it *)
-Theorem C14_I3_unspent_always_spendable : forall g ops s t,
-  run (init g) ops = Ok s ->
-  tx_validate (ledger s) t = true -> t_type t <> TGoldenTicket -> producer_only t = false ->
-  has_tx (t_id t) (txs (pl s)) = false ->
-  (forall k u, In k (vkeys t) -> In u (txs (pl s)) -> ~ In k (in_keys u)) ->
-  exists p', add_transaction_if_validates (ledger s) (pl s) t = Ok p' /\ In t (txs p').
-Proof. exact unspent_always_spendable. Qed.
+Theorem C14_I5_exact_after_block : forall s l b x,
+  step s (OBlockAdded l b) = Ok x -> I5 (pl (fst x)).
+Proof. exact routing_work_exact_after_block. Qed.
 
 (* ---------------- I2: pooled transactions stay valid against the ledger ---------------- *)
 
@@ -80,58 +77,101 @@ Theorem C14_I2_pooled_valid_always : forall g ops s,
   Forall op_consults ops -> run (init g) ops = Ok s -> I2 (ledger s) (pl s).
 Proof. exact pooled_valid_always. Qed.
 
-Theorem C14_I5_exact_after_block : forall s l b x,
-  step s (OBlockAdded l b) = Ok x -> I5 (pl (fst x)).
-Proof. exact routing_work_exact_after_block. Qed.
+(* ---------------- I3: no stale reservation; unspent outputs stay spendable ---------------- *)
+
+Theorem C14_I3_no_stale_reservation_refuted :
+  exists g ops s, run (init g) ops = Ok s /\
+    known_in Known_C14_left_out_stale (init g) ops = true /\ ~ I3 (pl s).
+Proof. exact I3_refuted_left_out. Qed.
+
+(* user-visible: after the bundle above and a failed addition of the bundled block, a
+   spendable output that no pooled transaction names, and a fresh valid transaction spending
+   it that the pool silently drops *)
+Theorem C14_I3_funds_locked_refuted :
+  exists g ops s t, run (init g) ops = Ok s /\ funds_locked s t.
+Proof. exact funds_locked_left_out. Qed.
+
+Theorem C14_I3_no_stale_reservation : forall g ops s,
+  known_in Known_C14_left_out_stale (init g) ops = false ->
+  run (init g) ops = Ok s -> I3 (pl s).
+Proof. exact no_stale_reservation. Qed.
+
+(* every block addition re-establishes I3, whatever happened before *)
+Theorem C14_I3_no_stale_reservation_after_block : forall s l b x,
+  step s (OBlockAdded l b) = Ok x -> I3 (pl (fst x)).
+Proof. exact no_stale_reservation_after_block. Qed.
+
+(* user-visible form on those runs: an output that no pooled transaction names as an input
+   is accepted when a fresh valid transaction spends it *)
+Theorem C14_I3_unspent_always_spendable : forall g ops s t,
+  known_in Known_C14_left_out_stale (init g) ops = false ->
+  run (init g) ops = Ok s ->
+  tx_validate (ledger s) t = true -> t_type t <> TGoldenTicket -> producer_only t = false ->
+  has_tx (t_id t) (txs (pl s)) = false ->
+  (forall k u, In k (vkeys t) -> In u (txs (pl s)) -> ~ In k (in_keys u)) ->
+  exists p', add_transaction_if_validates (ledger s) (pl s) t = Ok p' /\ In t (txs p').
+Proof. exact unspent_always_spendable. Qed.
 
 (* ---------------- I4: bundling is atomic ---------------- *)
 
-(* still refuted: a reachable pool of two well-formed transactions, of which one spends
-   output 1; Block::create adds a rebroadcast of output 1, fails after the drain, and
-   both transactions are gone *)
-Theorem C14_I4_bundle_atomic_refuted :
-  exists g ops s env wn st ex p',
-    run (init g) ops = Ok s /\
-    forallb (fun t => negb (has_dup (vkeys t))) (txs (pl s)) = true /\
-    map t_id (txs (pl s)) = [13; 10] /\
-    bundle_block (ledger s) (pl s) env wn st ex = Ok (p', None) /\ txs p' = [] /\
-    Known_C14_failed_create s (OBundle env wn st ex) = true.
-Proof. exact I4_refuted. Qed.
-
-(* outside the class, in any pool state: a block without a double spend that contains every
-   pooled transaction, the pool emptied, no reservation left for any input of the block,
-   cache reset -- or the pool untouched *)
-Theorem C14_I4_bundle_atomic : forall l p env wn st ex p' r,
-  bundle_block l p env wn st ex = Ok (p', r) ->
-  Known_C14_failed_create (mkS p l) (OBundle env wn st ex) = false ->
+(* Every bundle, in any pool state, whose Block::create does not fail.
+   None: the pool is untouched, except that a pooled golden ticket which does not solve the
+   tip has been dropped (e0300b2).
+   Some b: b has no double spend, the pool is emptied and the cache reset, no input of a
+   transaction of b stays reserved, and every pooled transaction is in b -- except those
+   spending an output that b itself rebroadcasts. *)
+Theorem C14_I4_bundle_atomic : forall l p ts bg env wn st ex p' r,
+  bundle_block l p ts bg env wn st ex = Ok (p', r) ->
+  create_fails l (drop_bad_gt p bg) env wn st ex = false ->
   match r with
-  | None => p' = p
-  | Some b => txs p' = [] /\ work p' = 0 /\ dup_spend b = false /\
-              (forall t, In t (txs p) -> In t b) /\
+  | None => p' = p \/ (ts = true /\ p' = drop_bad_gt p bg)
+  | Some b => ts = true /\ txs p' = [] /\ work p' = 0 /\ dup_spend b = false /\
+              (forall t, In t (txs p) ->
+                 In t b \/ (exists k, In k (vkeys t) /\ In k (rebroadcast_keys ex))) /\
               (forall t k, In t b -> In k (in_keys t) -> ~ In k (umap p')) /\
-              gts p' = gts p
+              gts p' = gts (drop_bad_gt p bg)
   end.
 Proof. exact bundle_atomic. Qed.
 
-(* inside the class the drained transactions are lost but nothing stale is left *)
-Theorem C14_I4_failed_create_leaves_empty_pool : forall l p env wn st ex p' r,
-  bundle_block l p env wn st ex = Ok (p', r) ->
-  Known_C14_failed_create (mkS p l) (OBundle env wn st ex) = true ->
-  r = None /\ txs p' = [] /\ umap p' = [] /\ work p' = 0.
-Proof. exact failed_create_leaves_empty_pool. Qed.
+(* the exception is harmless for the ledger: a left-out transaction does not validate
+   against any ledger from which the block's rebroadcast inputs are gone *)
+Theorem C14_I4_left_out_is_doomed : forall rk t ledger',
+  left_out rk t = true -> t_type t <> TFee ->
+  (forall k, In k rk -> ~ In k ledger') -> valid_against ledger' t = false.
+Proof. exact left_out_is_doomed. Qed.
 
-(* the class is entered only through what Block::create adds: on a reachable pool (Reserved,
-   I1) whose transactions name each input once (Transaction::validate since 0fedb86), with
-   additions that do not spend what the pool spends, Block::create succeeds *)
+(* Block::create cannot fail on a reachable pool (Reserved, I1: C14_base_invariants; no
+   GoldenTicket-typed transaction: it would have panicked) of transactions naming each input
+   once (Transaction::validate since 0fedb86), when its rebroadcasts name each output once
+   and its other additions spend nothing that the pool spends.  A clash between a pooled
+   transaction and a rebroadcast no longer matters. *)
 Theorem C14_I4_create_succeeds : forall l p env wn st ex,
   Reserved p -> I1 p ->
-  (forall t, In t (txs p) -> NoDup (vkeys t)) ->
-  (forall s, st = Some s -> NoDup (vkeys s)) ->
+  (forall t, In t (txs p) -> NoDup (vkeys t) /\ t_type t <> TGoldenTicket) ->
+  (forall s, st = Some s -> NoDup (vkeys s) /\ t_type s <> TGoldenTicket) ->
   NoDup (spent_keys ex) ->
-  (forall k t, In k (spent_keys ex) -> In t (txs p) -> ~ In k (vkeys t)) ->
-  (forall k s, In k (spent_keys ex) -> st = Some s -> ~ In k (vkeys s)) ->
+  (forall k, In k (spent_keys ex) -> ~ In k (rebroadcast_keys ex) ->
+     (forall t, In t (txs p) -> ~ In k (vkeys t)) /\ (forall s, st = Some s -> ~ In k (vkeys s))) ->
   create_fails l p env wn st ex = false.
 Proof. exact create_succeeds. Qed.
+
+(* should it fail all the same (model level: C14_I4_failed_create_witness), the kept
+   transactions come back with a rebuilt index and a recomputed cache; "pool unchanged"
+   then fails only by the staking transaction that bundle_block had added *)
+Theorem C14_I4_failed_create_restores_pool : forall l p ts bg env wn st ex p' r,
+  bundle_block l p ts bg env wn st ex = Ok (p', r) ->
+  ts = true -> create_fails l (drop_bad_gt p bg) env wn st ex = true ->
+  r = None /\ I3 p' /\ work p' = sum_work (txs p') /\
+  (forall t, In t (txs p) -> In t (txs p') \/ left_out (rebroadcast_keys ex) t = true).
+Proof. exact failed_create_restores_pool. Qed.
+
+Theorem C14_I4_failed_create_witness :
+  exists g ops s ex p',
+    run (init g) ops = Ok s /\
+    bundle_block (ledger s) (pl s) true None true 0 (Some wS) ex = Ok (p', None) /\
+    C14_failed_create s (OBundle true None true 0 (Some wS) ex) = true /\
+    map t_id (txs p') = [90; 15; 10] /\ p' <> pl s.
+Proof. exact failed_create_witness. Qed.
 
 (* ---------------- totality ---------------- *)
 
@@ -151,36 +191,52 @@ Proof. exact panic_reachable. Qed.
 
 (* ---------------- non-vacuity, regression ---------------- *)
 
-(* the three histories that broke the pool before the fixes, each followed by a spend of the
-   output that used to stay locked: the pool now ends with exactly that transaction (or, for
-   the re-insertion, with the original and the conflicting arrival rejected) *)
+(* the histories that broke the pool before the fixes, each followed by a spend of the output
+   that used to stay locked; and the window-edge clash, in which the unrelated transaction is
+   now bundled (ids 90 = staking, 15 = unrelated, 30 = rebroadcast) *)
 Example C14_regression_examples :
   (exists s, run (init wG) ops_readd = Ok s /\
              map t_id (txs (pl s)) = [10] /\ umap (pl s) = [1] /\ work (pl s) = 50) /\
   (exists s, run (init wG) ops_invalidated = Ok s /\
              map t_id (txs (pl s)) = [13] /\ umap (pl s) = [2]) /\
   (exists s, run (init wG) ops_confirmed_offchain = Ok s /\
-             map t_id (txs (pl s)) = [11] /\ umap (pl s) = [1]).
+             map t_id (txs (pl s)) = [11] /\ umap (pl s) = [1]) /\
+  (exists s p' b, run (init wG) [OAddTx wA; OAddTx wE] = Ok s /\
+             bundle_block (ledger s) (pl s) true None true 0 (Some wS) [wR] = Ok (p', Some b) /\
+             map t_id b = [90; 15; 30] /\ umap p' = []).
 Proof. exact regression_examples. Qed.
+
+(* the leaving-out seen from I4 and I3: transaction 10 (inputs 1 and 2) is neither in the
+   block nor in the pool, and output 2 stays reserved *)
+Example C14_example_left_out :
+  exists s p' b, run (init wG) [OAddTx wA2; OAddTx wE] = Ok s /\
+    bundle_block (ledger s) (pl s) true None true 0 (Some wS) [wR] = Ok (p', Some b) /\
+    map t_id b = [90; 15; 30] /\ txs p' = [] /\ umap p' = [2].
+Proof. exact left_out_example. Qed.
 
 Example C14_example_life_cycle :
   exists s, run (init wG) ops_life = Ok s /\
-    known_in Known_C14_failed_create (init wG) ops_life = false /\
-    map t_id (txs (pl s)) = [18; 15] /\ umap (pl s) = [4; 3] /\ work (pl s) = 47.
+    known_in (fun s o => C14_failed_create s o || Known_C14_left_out_stale s o) (init wG) ops_life = false /\
+    map t_id (txs (pl s)) = [18; 15] /\ umap (pl s) = [4; 3] /\ work (pl s) = 47 /\
+    gts (pl s) = [].
 Proof. exact life_example. Qed.
 
-Print Assumptions C14_all_invariants.
+Print Assumptions C14_base_invariants.
 Print Assumptions C14_I1_no_double_spend_in_pool.
-Print Assumptions C14_I3_no_stale_reservation.
 Print Assumptions C14_I5_routing_work_cache.
-Print Assumptions C14_I3_unspent_always_spendable.
+Print Assumptions C14_I5_exact_after_block.
 Print Assumptions C14_I2_pooled_valid_after_block.
 Print Assumptions C14_I2_pooled_valid_always.
-Print Assumptions C14_I5_exact_after_block.
-Print Assumptions C14_I4_bundle_atomic_refuted.
+Print Assumptions C14_I3_no_stale_reservation_refuted.
+Print Assumptions C14_I3_funds_locked_refuted.
+Print Assumptions C14_I3_no_stale_reservation.
+Print Assumptions C14_I3_no_stale_reservation_after_block.
+Print Assumptions C14_I3_unspent_always_spendable.
 Print Assumptions C14_I4_bundle_atomic.
-Print Assumptions C14_I4_failed_create_leaves_empty_pool.
+Print Assumptions C14_I4_left_out_is_doomed.
 Print Assumptions C14_I4_create_succeeds.
+Print Assumptions C14_I4_failed_create_restores_pool.
+Print Assumptions C14_I4_failed_create_witness.
 Print Assumptions C14_no_panic.
 Print Assumptions C14_panic_only_gt.
 Print Assumptions C14_panic_reachable.
